@@ -467,7 +467,7 @@ impl Prop for C18 {
                 let n = 2 * rng.range(1, 5);
                 let data: Vec<[u64; 4]> = (0..n).map(|_| rw(rng)).collect();
                 let init: Vec<[u64; 4]> = (0..3).map(|_| if rng.chance(1, 2) { [0; 4] } else { rw(rng) }).collect();
-                json!({"kind": "pipe_double", "ptr": *rng.pick(&[0u64, 1000, 77777, (1u64 << 32) - 8]), "data": words_json(&data), "init": words_json(&init)})
+                json!({"kind": "pipe_double", "ptr": *rng.pick(&[0u64, 1000, 77777, (1u64 << 32) - n]), "data": words_json(&data), "init": words_json(&init)})
             }
             4 => {
                 let n = rng.range(1, 9);
